@@ -678,7 +678,8 @@ outerLoop:
 		}
 		var spacing pr.Float
 		if table.Style.GetBorderCollapse() == "separate" {
-			spacing = pr.Float(cell.Colspan-1) * table.Style.GetBorderSpacing()[0].Value
+			// Spanned columns with no originating cells take no border spacing
+			spacing = pr.Float(innerSpacings(originatingColumns(table, gridWidth), cell.GridX, cell.Colspan)) * table.Style.GetBorderSpacing()[0].Value
 		}
 
 		if minContent > columnsMinContent+spacing {
